@@ -46,6 +46,8 @@ class ReconnH(explore.Harness):
 
         self.garble_next = None
         self.app_tasks = []
+        self.cur_port = 51826
+        self.port_changed_at = None
         self.rig.acc.handler = std_handler({("PUT", "/characteristics"): _bad_sub})
         self.alphabet = p.get("behaviours", BEHAVIOURS)
         self.triggers = p.get("triggers", ["zc-same", "zc-changed", "ensure", "ensure-t3", "cancel-ensure", "close", "shutdown", "drop", "drop-old", "late-lost"])
@@ -250,6 +252,12 @@ class ReconnH(explore.Harness):
         elif k == "idle":
             self.idles += 1
             self.loop._vtime += 50.0
+        elif k == "zc-port":
+            # the accessory (a software bridge) restarted on another port of the same addresses
+            self.cur_port += 1
+            self.port_changed_at = (len(self.net.attempts), now)
+            self.trigger_times.append((now, "zc-port"))
+            self.pairing._async_description_update(mk_description(self.cur_hosts, port=self.cur_port, s=len(self.trigger_times) + 1))
         elif k in ("zc-same", "zc-changed", "zc-changed-last"):
             if k != "zc-same":
                 if self.alt_hosts:
@@ -259,7 +267,7 @@ class ReconnH(explore.Harness):
                     self.lazy_clear_pending = True
                     self.hosts_changed_at = len(self.net.attempts)
             self.trigger_times.append((now, k))
-            self.pairing._async_description_update(mk_description(self.cur_hosts, s=len(self.trigger_times) + 1))
+            self.pairing._async_description_update(mk_description(self.cur_hosts, port=self.cur_port, s=len(self.trigger_times) + 1))
         elif k in ("ensure", "ensure-t3"):
             self.trigger_times.append((now, k))
             self._start_ensure(k)
@@ -297,19 +305,19 @@ class ReconnH(explore.Harness):
                 self.trigger_times.append((now, trig))
                 self.trigger_after_close = True
                 if trig == "zc-same":
-                    self.pairing._async_description_update(mk_description(self.cur_hosts, s=len(self.trigger_times) + 1))
+                    self.pairing._async_description_update(mk_description(self.cur_hosts, port=self.cur_port, s=len(self.trigger_times) + 1))
                 else:
                     self._start_ensure("ensure")
         elif k.startswith("zc-same+"):
             second, _, n = k.partition("+")[2].partition("@")
             self.trigger_times.append((now, "zc-same"))
-            self.pairing._async_description_update(mk_description(self.cur_hosts, s=len(self.trigger_times) + 1))
+            self.pairing._async_description_update(mk_description(self.cur_hosts, port=self.cur_port, s=len(self.trigger_times) + 1))
             for _ in range(int(n)):
                 if self.loop.has_ready():
                     self.loop.run_batch()
             self.trigger_times.append((now, second))
             if second == "zc-same":
-                self.pairing._async_description_update(mk_description(self.cur_hosts, s=len(self.trigger_times) + 1))
+                self.pairing._async_description_update(mk_description(self.cur_hosts, port=self.cur_port, s=len(self.trigger_times) + 1))
             else:
                 self._start_ensure("ensure")
         elif k.startswith("put-garbled"):
@@ -386,12 +394,16 @@ class ReconnH(explore.Harness):
                 continue
             a["elig_checked"] = True
             prev = self.net.attempts[idx - 1] if idx else None
+            port_check = self.port_changed_at is not None and idx >= self.port_changed_at[0] and a["t"] > self.port_changed_at[1] + 1e-9 and a["port"] != self.cur_port
             if self.lazy_clear_pending and any(h not in self.prev_hosts for h in a["hosts"]):
                 # the first attempt that lists a newly advertised address: the code has adopted the new address set (and cleared its exclusions)
                 self.model_excluded_lazy.clear()
                 self.lazy_clear_pending = False
             first_of_round = prev is None or prev["outcome"] is None or (prev["outcome"] and prev["outcome"][0] == "ok") or (prev["end"] is not None and a["t"] > prev["end"] + 1e-9) \
                 or any(abs(t - a["t"]) < 1e-9 for t, _ in self.trigger_times + self.env_marks)
+            if first_of_round and port_check and prev is not None and prev["end"] is not None and a["t"] > prev["end"] + 1e-9:
+                # a round that starts (after a back-off) later than the announcement goes to the port that is advertised now
+                self.viol.append(("c10:attempt-to-a-port-that-is-no-longer-advertised", {"attempt_port": a["port"], "advertised_port": self.cur_port, "t": a["t"], "announced_at": self.port_changed_at[1]}))
             if not first_of_round or not self.p.get("with_description", True):
                 continue
             pass
